@@ -179,12 +179,13 @@ CHECKS = {
     },
     "C18": {
         "category": "exploration",
-        "text": "Fresh-process runs of the real command line for 15 scenarios (QUIC with zero-length, prefix-related and "
+        "text": "Fresh-process runs of the real command line for 19 scenarios (QUIC with zero-length, prefix-related and "
                 "NEW_CONNECTION_ID-issued connection IDs, two QUIC connections, a duplicated Initial, a Version Negotiation datagram, TLS incl. "
-                "retransmissions, a damaged CBC record, nine connections, mixed): one run per iteration order of the "
+                "retransmissions, a damaged CBC record, damaged copies with wrong checksums, nine connections, a non-ASCII ALPN name, mixed): one run per iteration order of the "
                 "connection-ID set that any PYTHONHASHSEED in the scanned range realises (witness seeds), x 3 working directories x "
-                "7 environments x stale output files, with and without -a; and all ordered pairs run(A);run(B) (with and without -a) in one interpreter "
-                "without state restoration, compared with a fresh run(B). Oracle: equal sha256 / equal bytes.",
+                "9 environments (incl. PYTHONOPTIMIZE, non-UTF-8 stdout) x stale output files, with and without -a; and all ordered pairs run(A);run(B) (with and without -a, "
+                "A possibly a run that aborts, and pairs whose two runs use different options) in one interpreter "
+                "without state restoration, compared with a fresh run(B) (fresh process where options differ). Oracle: equal sha256 / equal bytes.",
         "design_ref": "DESIGN.md section 5, C18",
         "note": "trusted: the claim that set iteration order of connection IDs is the only hash-seed dependent seam (argued from the "
                 "source: no other set/dict-order dependent iteration); orders not realised by any scanned seed are not covered",
